@@ -21,27 +21,27 @@ CLAIMED = {
     "C06": dict(cat="proof", tech="static analysis: exhaustive decision tables (marker evaluator, is_skip, skip/unregistered rows of the collection table) + name-use discipline query + clap-expansion query",
                 text="Finite truth tables of MarkerEvaluator::is_removal and is_skip and the skip/unregistered rows of the collection table are extracted exhaustively; every use of a tag/attribute name or value in the library is classified (exact ==, hash lookup, pass-through; substring/case-folding/trimming operations are violations); the clap Arg feeding the target set has no default.", ref="5 C06"),
     "C07": dict(cat="other", tech="static analysis: units / boundary-typestate provenance analysis of tokenizer::tokenize + structural agreement queries + guard-fact entailment of start < end at every token slice + decision table of one step of the text-merging pass (abstract interpretation)",
-                text="Consistency and boundary-ness of the two offset systems: every byte offset stored in a Token or used as a slice bound is a char_indices position or str::len (never boundary + 1 without an ASCII guard), character offsets receive only the per-character counter, value slices use the same expressions as byte_start/byte_end, byte and char cursors move in tandem, Token literals exist only in the tokenizer and tokenize returns the adjacent-Text merge. Contiguity/coverage/non-emptiness as arithmetic facts are not decided.", ref="5 C07"),
+                text="Consistency and boundary-ness of the two offset systems: every byte offset stored in a Token or used as a slice bound is a char_indices position or str::len (never boundary + 1 without an ASCII guard), character offsets receive only the per-character counter, value slices use the same expressions as byte_start/byte_end, byte and char cursors move in tandem, Token literals exist only in the tokenizer and tokenize returns the adjacent-Text merge; a token cut inside the scan is non-empty under its guards and dropped only when empty; one step of the merging pass joins text to preceding text (both ends extended, value re-sliced) and appends everything else; tokens are only appended. Contiguity/coverage of the scan fold as arithmetic facts are not decided.", ref="5 C07"),
     "C08": dict(cat="other", tech="static analysis: decision-table abstract interpretation of tokenizer::get_state restricted to the mismatch paths of partial-match states (re-examination; dependence of the fallback on the matched part)",
                 text="One clause only (re-examination): on every path where the current character aborts a partially matched start/end delimiter, the outcome forks on `c == first delimiter character` and does not fall back to the base state when equal. Necessary for tags preceded by a delimiter prefix. Self-overlapping delimiters, shortest-end matching and the body-character clause are not decided.", ref="5 C08"),
     "C09": dict(cat="proof", tech="static analysis: transducer extraction from the parser's fold closure (abstract interpretation per state x character class) + exhaustive product-automaton equivalence with the reference grammar transducer",
                 text="The attribute state machine is extracted from the source (48 state x class transitions + end-of-input actions) and the finite product with the grammar transducer of the property statement is explored completely: on every prefix of every well-formed tag body, of any length, both emit the same word/value spans and accept together; quoted values are opaque; delimiters are stripped by once-only operations. Extraction and the grammar table are the trusted base.", ref="5 C09 / 3.5"),
     "C10": dict(cat="other", tech="static analysis: linear must-flow by path enumeration of one iteration of parser::tree's loop (abstract interpretation) + name-use discipline query + slash-count abstraction of the closer normalisation + path rules on the same enumeration for cursor progress and pairing polarity",
-                text="Token linearity only: on each of the enumerated paths of the loop body the fetched token is placed exactly once and the child list of the recursive call is consumed exactly once; parse() starts at token 0. Pairing semantics (innermost match, demotion, order) are not decided.", ref="5 C10"),
+                text="Token linearity only: on each of the enumerated paths of the loop body the fetched token is placed exactly once and the child list of the recursive call is consumed exactly once; parse() starts at token 0; on the same paths: the cursor moves by one and continues where the recursion stopped, an element is built exactly when opener and returned closer agree in name, the opener is on the list of open elements (a shared stack is pushed, passed and popped on every path), ancestors are matched by full name and the closer loses exactly one slash at both comparison sites. Demotion of crossing tags beyond token placement and sibling order are not decided.", ref="5 C10"),
     "C11": dict(cat="other", tech="static analysis: abstract-interpretation normal form of the unwrap builder (extents) + complete applicability decision table over scan results and the ordering of the two inner positions + strategy-selection queries",
                 text="Clauses only (line geometry is run-time): the opening part is tag start .. second non-pausing forward line break, the closing part is second backward line break + 1 .. tag end (tag line + adjacent wrapper line on each side); the pair is built exactly when all four line breaks exist and the closing wrapper line does not start before the opening wrapper line ends (48-row table; E = S is exactly two lines between the tags), otherwise the element is untouched; the strategy is chosen by the unwrap-block attribute. That the second line break is 'the line after' in every layout and survival of inner lines are not decided here.", ref="5 C11"),
     "C12": dict(cat="other", tech="static analysis: provenance/clamp query on dedent ranges + scanner byte tables + path rule on the backward scanner (byte 0) + index-space rule with symbolic linear forms on merge_markers + path rule on one step of the block's line walk",
-                text="Four clauses: only blanks are consumed (both endpoints min(_, first non-blank), anchored at the line start; seam byte established as the line break); dedent amount saturating; the backward line-break scan examines byte 0 before leaving; head/tail pair indices point at each other and spliced child indices are rebased by p -> p - offset + current + 1 under the guard offset <= p < end. Uniform shift amount and behaviour at nesting depth >= 2 beyond index validity are not decided.", ref="5 C12"),
+                text="Four clauses: only blanks are consumed (both endpoints min(_, first non-blank), anchored at the line start; seam byte established as the line break); dedent amount saturating; the backward line-break scan examines byte 0 before leaving; head/tail pair indices point at each other and spliced child indices are rebased by p -> p - offset + current + 1 under the guard offset <= p < end. Also: every line of the block is visited by a non-pausing walk and gives up a range of one of four shapes built from the tag's indentation and the common shift; the ranges of all blocks are sorted, merged and reach the deletion. Behaviour at nesting depth >= 2 beyond index validity and sortedness is not decided.", ref="5 C12"),
     "C13": dict(cat="other", tech="static analysis: exhaustive decision tables of the seam formatters (abstract interpretation) + hull-by-ordering-enumeration of format_block + path rules on IndentRemover's backward scan + completeness direction of the scanner byte tables",
-                text="Clauses only (blank-line arithmetic over layouts is run-time and not decided): the range tidied at a seam is the hull of the four seam formatters asked at the seam; EmptyLineRemover removes the residual line break exactly when the seam is a line break and neither neighbour line is blank (complete 64-row table); Prev/NextLineBreakRemover remove one blank line exactly when two blank-separated line breaks precede/follow; IndentRemover must treat the start of the file as a line start (known finding: it does not); ranges are merged within their union before deletion.", ref="5 C13"),
+                text="Clauses only (blank-line arithmetic over layouts is run-time and not decided): the range tidied at a seam is the hull of the four seam formatters asked at the seam; EmptyLineRemover removes the residual line break exactly when the seam is a line break and neither neighbour line is blank (complete 64-row table); Prev/NextLineBreakRemover remove one blank line exactly when two blank-separated line breaks precede/follow; IndentRemover must treat the start of the file as a line start (known finding: it does not), reports the indentation as beginning directly behind the line break found, acts only when the seam byte is a line break and returns what it found; the scanners pass blanks (space and tab), report a line break on a boundary and, when not pausing, pass everything else; ranges are merged within their union before deletion.", ref="5 C13"),
     "C14": dict(cat="other", tech="static analysis: abstract-interpretation byte-class tables of the scanners + constant-argument query on scanner call sites + provenance grammar of formatter range endpoints + running-total rule for the seam positions",
                 text="Locality through its mechanisms: scanners stop at the first non-blank when pausing (complete tables), every seam formatter calls them pausing, every returned endpoint is seam / pausing-scan result (+1), dedent ranges are clamped per line. Decides these clauses, not verbatim survival of every stretch.", ref="5 C02/C14"),
     "C15": dict(cat="other", tech="static analysis: sibling agreement on abstract-interpretation normal forms of the three entry points + effect reachability over the resolved call graph",
                 text="list and clean obtain regions from the same pure function on identically built inputs (normal forms of clean/list/list_all share tokenize/parse/build_remover; Remover::remove deletes exactly build_remove_marker's ranges; list renders all of them tagged Ready) and nothing reachable from the entry points is effectful, static-state dependent or iterates a hash container. Line numbers and highlighted text are not decided.", ref="5 C15"),
     "C16": dict(cat="other", tech="static analysis: type/derive-expansion query for the JSON schema (keys read off the generated serialize body) + non-interference (taint) query for the colour flag + byte-0 path rule + structural rules on the assembly of an item (frame order, contiguous slice chain with interpreted line bounds, numbering, tab counter)",
-                text="JSON shape fixed by types and the generated serialiser (keys line_range, annotated_code_block, current_status; Ready/Pending), both formats rendered from the same marker list with Some(line map); the colour flag only selects SGR constants that flow only into push_str/capacity; backward scanner examines byte 0. Columns, widths, tab expansion and marker placement are not decided.", ref="5 C16"),
+                text="JSON shape fixed by types and the generated serialiser (keys line_range, annotated_code_block, current_status; Ready/Pending), both formats rendered from the same marker list with Some(line map); the colour flag only selects SGR constants that flow only into push_str/capacity; backward scanner examines byte 0; tabs of the code block are expanded unconditionally; nothing rewrites or re-splits listed text; the frame is padding* `_start` line-break block padding* `‾end` with each padding from its own marker's line; the shown text is a contiguous chain of content slices from the first line's start to the last line's end with the region highlighted, numbered first..=last; line range = (line of first byte, line of last byte); the tab counter counts tabs. Widths of padding and of the number column are not decided.", ref="5 C16"),
     "C17": dict(cat="other", tech="static analysis: decision table of the pending/ready gating + loop-shape query on the pending/ready merge + ordering enumeration of the squash test",
-                text="Clauses only: complete gating table (pending push exactly when not skip & registered & not verdict & collect_pending & built & non-empty; skip/unregistered/cannot-unwrap in neither list; ready list independent of the flag) and merge exhaustiveness (the pending cursor advances only inside an inner loop, each ready range pushed once unconditionally, pending tail appended). Squash test, once-each and order in general are not decided.", ref="5 C17"),
+                text="Clauses only: complete gating table (pending push exactly when not skip & registered & not verdict & collect_pending & built & non-empty; skip/unregistered/cannot-unwrap in neither list; ready list independent of the flag) and merge exhaustiveness (the pending cursor advances only inside an inner loop, each ready range pushed once unconditionally, pending tail appended), and on all endpoint orderings of one merge step: a pending range is omitted exactly when it lies wholly inside the ready range, listed as itself with status Pending, and taken up in front of a ready range exactly when it begins before that range ends. Order for partially overlapping ranges (which nested elements cannot produce) is not decided.", ref="5 C17"),
     "C18": dict(cat="other", tech="static analysis: literal / constant queries + use-classification of the delimiter parameters + registry wiring + strip-once query",
                 text="Parametricity clauses: no default delimiter/tag spelling and no undocumented keyword literal in the library, integer literals in tokenizer/tag parser are 0 or 1, delimiters are used only as opaque character sequences and stripped exactly once, evaluators are keyed by the configured tag names. The relational statement itself is not decided.", ref="5 C18"),
     "C20": dict(cat="other", tech="static analysis: path-enumerating abstract interpretation of chiritori-cli::main over the clap-expanded program (wiring, dispatch table, effect order) + clap Arg table query + effect whitelist",
